@@ -587,6 +587,28 @@ func ruleCmpInt(c *Check, rule string) {
 	ai, bi := "lmdbenv/strategy.bytesToInt("+a+")", "lmdbenv/strategy.bytesToInt("+b+")"
 	bad := 0
 	seen := map[string]bool{}
+	// the library's three-way comparison of the two decoded integers, arguments in order
+	if len(paths) == 1 && paths[0].End == "return" && len(paths[0].Rets) == 1 {
+		p := &paths[0]
+		for j := range p.Events {
+			e := &p.Events[j]
+			if e.Kind != "call" || e.Static == nil || e.Res != p.Rets[0] || len(e.Args) != 2 {
+				continue
+			}
+			o := e.Static
+			if og := o.Origin(); og != nil {
+				o = og
+			}
+			if o.Pkg == nil || o.Pkg.Pkg.Path() != "cmp" || o.Name() != "Compare" || len(e.Static.TypeArgs()) != 1 {
+				continue
+			}
+			bt, isB := e.Static.TypeArgs()[0].Underlying().(*types.Basic)
+			if isB && bt.Info()&types.IsUnsigned != 0 && e.Args[0] == ai && e.Args[1] == bi {
+				seen["<"], seen["=="], seen[">"] = true, true, true
+				paths = nil
+			}
+		}
+	}
 	for i := range paths {
 		p := &paths[i]
 		r := p.State.RelOf("int", ai, bi)
